@@ -37,7 +37,9 @@ ASSUMPTIONS = [
 LEVEL_TEXT = (
     "Proved: for every signal length the port's symmetric-index padding + as_strided yields exactly compute_full's frames "
     "and stays inside its storage; the port's segment walk equals the NumPy walk (hence the specification) for every "
-    "DFT size/start/length; both return zero frames below L//2+1; per-segment doubling equals doubling the sum. Tied "
+    "DFT size/start/length; both return zero frames below L//2+1; per-segment doubling equals doubling the sum; the port's coefficient tail "
+    "(per-segment norms, doubling, clamp_min/log after stacking, energy column) is regenerated from torch.py each run and "
+    "proved equal to the NumPy computer's, hence to the documented full-spectrum formula (torch_coefficient_spec). Tied "
     "to torch.py by exact-integer tracer correspondence through the public module; values on library banks, wrappers, "
     "dither and TorchScript by differential runs."
 )
